@@ -1240,6 +1240,10 @@ fn repeated_query_classifier(db: &dyn RustIrDatabase<ChalkIr>, g: &UGoal) -> &'s
             let pat = erase_const_types(&enc_subst(&c.value));
             if stored.iter().all(|(s, _, _)| instance_of(&pat, &erase_const_types(&enc_subst(&s.value.subst)))) {
                 "slg_guidance_precision_depends_on_table_completion"
+            } else if !crate::wire_sol::is_linear(&pat) {
+                // F1: may_invalidate judges a non-instance harmless when the guidance repeats a variable;
+                // over the completed table (no strands to be conservative about) make_solution stops early
+                "slg_guidance_nonlinear"
             } else {
                 "slg_repeated_query_excludes_answer"
             }
